@@ -16,7 +16,7 @@ from lib.vcommon import hexb
 
 LEVEL = "proof"
 ASSUMPTIONS = [
-    "application strings are plain str objects (a str subclass overriding __contains__/lower/capitalize is application code attacking itself); header pairs are tuples (pairs passed as mutable lists and mutated after start_response are the open finding kf_c08_pair_alias)",
+    "application strings are plain str objects (a str subclass overriding __contains__/lower/capitalize is application code attacking itself); header pairs may be tuples or lists, mutated or not after the call",
     "str.capitalize / str.lower on arbitrary code points enter the theorems as Section variables with the hypothesis 'no CR, LF is produced from a string without CR, LF'; the hypothesis is tested on every run over all 0x110000 code points; the theorems are closed by a concrete instance that is exact below 256",
     "server configuration strings (ident, the date produced by build_http_date) contain no CR/LF and are latin-1",
     "C08 is stated at the level of head lines: a header name containing ':' or ' ' yields one line, exactly name ': ' value",
@@ -89,7 +89,7 @@ def effective_request(case):
             elif a[0] == "R":
                 return (status, pairs, complete, began, "raised")
             elif a[0] == "M":
-                return (status, pairs, complete, began, "mutated")
+                pass      # in-place mutation of a pair after the call: no effect (the pairs were copied)
     return (status, pairs, complete, began, "end")
 
 
@@ -262,10 +262,8 @@ def run(ctx):
             outside += 1
         v = search_one(case, real, cache)
         if v is not None:
-            has_mut = any(a[0] == "M" for a in T.actions_of(case))
-            kf = "kf_c08_pair_alias" if has_mut else None
-            if kf is None:
-                search_ok = False
+            kf = None
+            search_ok = False
             ctx.report("search:%s:%s:%s" % (kf, v[0], json.dumps(tag)[:60]), "C08 fails on the real code (%s): %s" % (tag, v[0]),
                        {"kind": "search", "case": case, "expected": v[1], "observed": v[2], "what": v[0],
                         "failing_input_found": True}, kf_class=kf)
